@@ -1,7 +1,9 @@
 (* C15 - line-at-a-time input is equivalent to whole-file input.
    Only property statements, examples and Print Assumptions. *)
 From Coq Require Import List ZArith NArith Bool String.
+From GrolGen Require Import Gen_Consts.
 From GrolModel Require Import Ast Lexer Parser Printer AstWf Frontend.
+From GrolProofs Require Import Parser_proofs Linemode_sim.
 Import ListNotations.
 
 Definition no_numbers : numconv := mkConv (fun _ => None) (fun _ => None).
@@ -49,4 +51,26 @@ b"; "m = {a:
 b}"; "f = (a,b) => a+b; f(c)"]%string = true.
 Proof. vm_compute. reflexivity. Qed.
 
+(* (1), proved at the level of the parser for every token list and every fuel: a line-mode parse that
+   reports no error and asks for no continuation is reproduced, step for step, by the file-mode parse of
+   the same tokens with the end-of-line marker renamed to the end-of-file marker - same tree (fl renames
+   the type of end-marker tokens inside the tree; a clean tree contains none, which the harness checks by
+   comparing the trees exactly), no error, no continuation.  The converse is false by design: file mode
+   accepts an unterminated block at end of input, line mode asks for more.
+   The remaining step of C15_linemode_same_tree - the two lexer modes produce the same tokens up to the
+   end marker when no string is left open - is checked per run (token streams of both modes are compared
+   by C16 and the trees of both modes by this check), not proved. *)
+Theorem C15_linemode_parse_is_filemode_parse : forall conv fuel toks r,
+  parse_program conv fuel token_EOL toks = POk r -> clean_result r = true ->
+  parse_program conv fuel token_EOF (map fp toks)
+  = POk (mkPres (map (option_map fnode) (pr_tree r)) [] false (pr_all_lexed r)).
+Proof. exact linemode_parse_sim. Qed.
+
+(* non-vacuity: a multi-line complete program parses cleanly in line mode *)
+Example C15_clean_linemode_example :
+  match front_parse no_numbers true (src "x = (a +
+b); f = (a,b) => a+b") with POk r => clean r | _ => false end = true.
+Proof. vm_compute. reflexivity. Qed.
+
+Print Assumptions C15_linemode_parse_is_filemode_parse.
 Print Assumptions C15_open_prefixes_continue.
